@@ -54,6 +54,8 @@ type c11Script struct {
 	prep func(w *world.World) error
 	// want: how many messages the stream must have sent at quiescence (default npub)
 	want int
+	// wantSends: how many Send calls must have happened (re-deliveries included)
+	wantSends int
 }
 
 const (
@@ -323,9 +325,11 @@ func streamInterleavings(t *testing.T, prop string, scripts []c11Script, tier st
 				}
 				got := make(chan uuid.UUID, 16)
 				conn := &memConn{reqs: make(chan *actions.MessageStreamRequest), share: make(chan uuid.UUID, 16)}
+				sends := 0
 				conn.onSend = func(d *actions.SubscriptionMessageDelivery) {
 					vmu.Lock()
 					defer vmu.Unlock()
+					sends++
 					out[d.ID.String()] = len(d.Payload)
 					// a message that is sent AGAIN after the client settled it (nack) is
 					// held by the client again
@@ -389,8 +393,11 @@ func streamInterleavings(t *testing.T, prop string, scripts []c11Script, tier st
 					// script frees / raises capacity for the second message)
 					vmu.Lock()
 					sent := len(out)
+					nSends := sends
 					vmu.Unlock()
-					if !r.Done("client") {
+					if sc.wantSends > 0 && r.Done("client") && nSends < sc.wantSends {
+						verdict = fmt.Sprintf("VIOLATION the client gave the message back (zero deadline, sent after an extension of the same id) but it was not delivered again: %d Send calls, want %d", nSends, sc.wantSends)
+					} else if !r.Done("client") {
 						verdict = "VIOLATION the client could not deliver its request to the stream (reader stuck)"
 					} else if sent < sc.want && prop == "C10" {
 						verdict = fmt.Sprintf("VIOLATION lost wake-up: the stream sent %d of %d messages although the change that makes a message deliverable has committed and no time has passed", sent, sc.want)
@@ -455,4 +462,39 @@ func streamInterleavings(t *testing.T, prop string, scripts []c11Script, tier st
 	return map[string]any{"interleaving_scenarios": per, "interleaving_schedules": total, "interleaving_decisions": decisions, "interleavings_complete": complete}, viols, ferr
 }
 
-func init() { c11Layer2 = c11Interleavings; c10StreamLayer = c10Interleavings }
+// C04 on the stream: requests of one client are applied in the order they were
+// sent - an extension followed by a zero deadline for the same id gives the
+// message back, whatever the interleaving of the two transactions with the
+// sender's fetch.
+func c04StreamScripts() []c11Script {
+	return []c11Script{
+		{name: "stream: extend then zero deadline for one id", fc: actions.FlowControl{MaxMessages: 10, MaxBytes: 1000}, npub: 1, want: 1, wantSends: 2,
+			client: func(conn *memConn, got <-chan uuid.UUID, w *world.World) {
+				id := <-got
+				conn.reqs <- &actions.MessageStreamRequest{Delay: []uuid.UUID{id}, DelaySeconds: 30}
+				conn.settle(id)
+				conn.reqs <- &actions.MessageStreamRequest{Delay: []uuid.UUID{id}, DelaySeconds: 0}
+			}},
+		{name: "stream: zero deadline then extend for one id", fc: actions.FlowControl{MaxMessages: 10, MaxBytes: 1000}, npub: 1, want: 1, wantSends: 2,
+			client: func(conn *memConn, got <-chan uuid.UUID, w *world.World) {
+				id := <-got
+				conn.settle(id)
+				conn.reqs <- &actions.MessageStreamRequest{Delay: []uuid.UUID{id}, DelaySeconds: 0}
+				// (the redelivery is attempt 2; extending it afterwards must not undo the give-back)
+				<-got
+			}},
+	}
+}
+
+func init() {
+	c11Layer2 = c11Interleavings
+	c10StreamLayer = c10Interleavings
+	addExtra("C04", func(t *testing.T, tier string) (map[string]any, []report.Viol, error) {
+		cov, v, err := streamInterleavings(t, "C04", c04StreamScripts(), tier, report.RealNow().Add(schedBudget(tier)))
+		out := map[string]any{}
+		for k, x := range cov {
+			out["stream_"+k] = x
+		}
+		return out, v, err
+	})
+}
